@@ -914,7 +914,8 @@ impl<const N: u32> PxE2<{ N }> {
                 let mut u_z = regime + exp_frac32_a;
 
                 let shift = 32 - N;
-                if ((u_z >> shift) != (0x_7FFF_FFFF >> shift))
+                if (N < 32)
+                && ((u_z >> shift) != (0x_7FFF_FFFF >> shift))
                     && (((0x_8000_0000_u32 >> N) & u_z) != 0)
                     && ((((0x_8000_0000_u32 >> (N - 1)) & u_z) != 0)
                         || (((0x_7FFF_FFFF_u32 >> N) & u_z) != 0))
@@ -981,7 +982,8 @@ impl<const N: u32> PxE2<{ N }> {
             let mut u_z = regime + exp_frac32_a;
 
             let shift = 32 - N;
-            if ((u_z >> shift) != (0x_7FFF_FFFF >> shift))
+            if (N < 32)
+                && ((u_z >> shift) != (0x_7FFF_FFFF >> shift))
                 && ((((0x_8000_0000_u32 >> N) & u_z) != 0)
                     && ((((0x_8000_0000_u32 >> (N - 1)) & u_z) != 0)
                         || (((0x_7FFF_FFFF_u32 >> N) & u_z) != 0)))
@@ -1213,7 +1215,8 @@ impl<const N: u32> PxE1<{ N }> {
 
             let shift = 32 - N;
 
-            if ((u_z >> shift) != (0x_7FFF_FFFF >> shift))
+            if (N < 32)
+                && ((u_z >> shift) != (0x_7FFF_FFFF >> shift))
                 && (((0x_8000_0000_u32 >> N) & u_z) != 0)
                 && ((((0x_8000_0000_u32 >> (N - 1)) & u_z) != 0)
                     || (((0x_7FFF_FFFF_u32 >> N) & u_z) != 0))
